@@ -39,7 +39,10 @@ CLAIMED.update({
             "of 0..2 bytes, identifiers, export funs, depth-1 tuple/list/improper list).", E1T),
     "C02": ("E1 kani-cbmc", "9.3 C02", "Per-tag length-field harnesses: for every tag with a wire-supplied length/arity/count the field bytes are fully symbolic "
             "(incl. 2^32-1) with little data behind; decides no panic and no single allocation request above 64*len+4096 bytes, for the owned and "
-            "zero-copy entry points and the fragment-header entry points.", E1T + "; allocation budget assertion in the allocator model"),
+            "zero-copy entry points and the fragment-header entry points. E2: the container parsers (list, small/large tuple, NEW_FUN_EXT free variables, "
+            "reference id words, COMPRESSED) are executed from their MIR on an input of symbolic length and unknown content up to their first "
+            "Vec::with_capacity; z3 decides the requested capacity never exceeds both the input length and 65536.",
+            E1T + "; allocation budget assertion in the allocator model; MIR->SMT for the pre-allocation sites with native replay under a counting allocator"),
     "C03": ("E1 kani-cbmc", "9.3 C03", "For each admissible alternative encoding (non-minimal integer widths, leading-zero bignums, LARGE_BIG, four atom tags incl. "
             "Latin-1, LARGE_TUPLE, PID_EXT, PORT_EXT/NEW_PORT_EXT, NEW_REFERENCE_EXT, STRING_EXT, LOCAL_EXT) the reference emits the bytes from symbolic "
             "field values and the real decoder must return a term denoting exactly that value; one trailing byte must be reported.", E1T),
